@@ -30,7 +30,7 @@ func inputFrames(rng *Rng, n int, sizes []int) []InItem {
 func base(rng *Rng, mode int) Cfg {
 	return Cfg{Mode: mode, Codec: 1 + rng.Intn(2), Cipher: rng.Bool(), Ocap: rng.PickInt(1, 2, 8, 128, 1000),
 		Icap: rng.PickInt(1, 2, 4, 16), Ecap: rng.PickInt(-1, 0, 1, 4), HasWriter: true, HasReader: true,
-		InConsumer: 1, Seed: rng.Next() >> 1, LateSend: 1}
+		InConsumer: 1, Seed: rng.Next() >> 1, LateSend: 1, FailAfter: -1}
 }
 
 // GatedRandom: a few senders / closers, some inbound traffic, fully random serialized schedule.
@@ -151,7 +151,7 @@ func GatedDoubleClose(rng *Rng) (string, Cfg) {
 	return "gated-multi-close", c
 }
 
-var streamSizesV1 = []int{0, 4, 100, 1000, 4095, 4097, 5000, 30000, 61000}
+var streamSizesV1 = []int{0, 4, 100, 1000, 4095, 4097, 5000, 30000, 61000, 61426, 61427, 62000}
 var streamSizesV2 = []int{0, 4, 100, 1000, 8191, 8193, 30000, 70000, 524288}
 
 // FreeStream: one sender pipelines k packets of assorted sizes at full speed; the peer reads
@@ -247,4 +247,126 @@ func GatedErrChan(rng *Rng) (string, Cfg) {
 	}
 	c.Script = append(c.Script, Dir{DRand, rng.Range(5, 60), 0})
 	return "gated-errchan", c
+}
+
+// GatedReaderFirst: the peer's input (frames, then garbage / EOF / RST / a truncated frame / an
+// over-limit length) is consumed by the reader before any Close call is released: the reader's
+// own ForceClose wins the CAS and tears the connection down.
+func GatedReaderFirst(rng *Rng) (string, Cfg) {
+	c := base(rng, 1)
+	var g idGen
+	c.Icap = 16
+	c.Senders = [][]PktSpec{g.pkts(rng, rng.Range(0, 4), smallSizes)}
+	c.Closers = []bool{rng.Bool()}
+	n := rng.Range(0, 3)
+	c.Input = inputFrames(rng, n, smallSizes)
+	kind := rng.PickInt(1, 2, 3, 4, 5)
+	c.Input = append(c.Input, InItem{kind, 7000, rng.PickInt(0, 9, 40)})
+	for i := 0; i <= n; i++ {
+		c.Script = append(c.Script, Dir{DEnv, EvPeerWrite, 0})
+	}
+	c.Script = append(c.Script, Dir{DRun, TSender * 1000, rng.Range(0, 6)}, Dir{DUntil, TReader * 1000, PReaderExit},
+		Dir{DRand, rng.Range(0, 30), 0})
+	return "gated-reader-first-" + []string{"", "garbage", "eof", "rst", "truncated", "badlen"}[kind], c
+}
+
+const oversizeV1 = 62000 // body that makes a V1 frame exceed V1MaxPayloadBytes = 61440 (incompressible)
+
+// GatedOversizeBacklog: like GatedBacklog, with packets the encoder refuses inside and at the
+// end of the backlog.
+func GatedOversizeBacklog(rng *Rng) (string, Cfg) {
+	c := base(rng, 1)
+	c.Codec = 1
+	var g idGen
+	k := rng.Range(2, 12)
+	c.Ocap = rng.PickInt(k, k+1, 128)
+	ps := g.pkts(rng, k, smallSizes)
+	for i := range ps {
+		if rng.Chance(1, 5) {
+			ps[i].Size = oversizeV1
+		}
+	}
+	if rng.Chance(2, 3) {
+		ps[k-1].Size = oversizeV1
+	}
+	c.Senders = [][]PktSpec{ps}
+	c.Closers = []bool{true}
+	c.Input = nil
+	c.Script = []Dir{{DRun, TSender * 1000, 3 * k}, {DRun, TCloser * 1000, 5}, {DFinish, 0, 0}}
+	return "gated-oversize-backlog", c
+}
+
+// FreeOversizeTail: a burst at full speed with encoder-refused packets inside and at its end,
+// towards a slow or late peer (so that a backlog exists), Close right after the last send.
+func FreeOversizeTail(rng *Rng) (string, Cfg) {
+	c := base(rng, 0)
+	c.Codec = 1
+	var g idGen
+	k := rng.Range(2, 40)
+	c.Ocap = rng.PickInt(k, 128, 1000)
+	ps := g.pkts(rng, k, smallSizes)
+	for i := range ps {
+		if rng.Chance(1, 8) {
+			ps[i].Size = oversizeV1
+		}
+	}
+	if rng.Chance(3, 4) {
+		ps[k-1].Size = oversizeV1
+	}
+	c.Senders = [][]PktSpec{ps}
+	c.Closers = []bool{true}
+	c.PeerRead = rng.PickInt(0, 1, 2, 2)
+	c.Input = inputFrames(rng, rng.Range(0, 3), smallSizes)
+	c.Immediate = rng.Intn(2)
+	return "free-oversize-tail", c
+}
+
+// FreeImmediate: Go(); SendPacket x N; Close() back to back, no settling; half of them with
+// GOMAXPROCS=1 (the pumps have not even started when Close reaches wg.Wait).
+func FreeImmediate(rng *Rng) (string, Cfg) {
+	c := base(rng, 0)
+	var g idGen
+	k := rng.Range(1, 30)
+	c.Ocap = rng.PickInt(k, 128, 1000)
+	c.Senders = [][]PktSpec{g.pkts(rng, k, smallSizes)}
+	c.Closers = []bool{true}
+	c.PeerRead = rng.Intn(3)
+	c.Input = inputFrames(rng, rng.Range(0, 4), smallSizes)
+	c.Immediate = 1
+	c.MaxProcs = rng.PickInt(0, 1)
+	if rng.Bool() { // writer only: Go(EndpointWriter), as the repository's own server-side handler does
+		c.HasReader = false
+		c.Input = nil
+	}
+	name := "free-immediate"
+	if c.MaxProcs == 1 {
+		name += "-1proc"
+	}
+	return name, c
+}
+
+// WriteFail: the socket starts failing Write after f successful writes (injected through a
+// net.Conn wrapper); writer only, small packets (one Write per packet); what the peer received
+// and the counters must both stop exactly there.
+func WriteFail(rng *Rng) (string, Cfg) {
+	gated := rng.Bool()
+	mode := 0
+	if gated {
+		mode = 1
+	}
+	c := base(rng, mode)
+	var g idGen
+	k := rng.Range(1, 12)
+	c.Ocap = rng.PickInt(k, 128)
+	c.HasReader = false
+	c.Senders = [][]PktSpec{g.pkts(rng, k, smallSizes)}
+	c.Closers = []bool{true}
+	c.Input = nil
+	c.FailAfter = rng.Range(0, k)
+	if gated {
+		c.Script = []Dir{{DRand, rng.Range(5, 60), 0}}
+		return "gated-write-fail", c
+	}
+	c.PeerRead = rng.Intn(2)
+	return "free-write-fail", c
 }
